@@ -17,13 +17,15 @@ from common import coq_list, coq_z
 
 TAG = "C13_%d" % os.getpid()    # scratch-file prefix in coq/build, unique per process
 THEOREMS = ["C13_inv", "C13_history", "C13_outputs", "C13_duplicate_rejected", "C13_add_accepted",
-            "C13_removal", "C13_pop", "C13_clear", "C13_iteration", "C13_mux_first", "C13_mux_absent",
+            "C13_removal", "C13_pop", "C13_clear", "C13_construct", "C13_construct_copy", "C13_iteration", "C13_mux_first", "C13_mux_absent",
             "C13_generate_id", "C13_mux_stores_finite", "C13_candidates_distinct", "C13_quote_clean",
             "C13_quote_id", "C13_example", "C13_example_gen"]
 
 ABSENT = "zz#absent"
-NAMESPACES = ["http://x/", "urn:a:b#", "x:y="]
-PROPOSALS = [None, "", "p", "p q", "a:b", "\x01p\x1f", "é", "p_0001", "(x)|y", "p/q?r=s&t#u", "\x7f"]
+NAMESPACES = ["http://x/", "urn:a:b#", "x:y=", "HTTP://H/p/", "https://e.org/a/b/", "ftp://h/d/?q="]
+# plain / empty / colliding / needing escaping / URL structure (path, dot segments, authority, query, fragment, scheme)
+PROPOSALS = [None, "", "p", "p q", "a:b", "\x01p\x1f", "é", "p_0001", "(x)|y", "p/q?r=s&t#u", "\x7f",
+             "/P", "../P", "../../P", "//e.com/P", "a/../../P", "..", ".", "?q", "#f", "x:y", "%2e%2e/P", "./"]
 
 
 # ------------------------------------------------------------------ SDK side
@@ -228,6 +230,34 @@ def run_sdk(case):
                 arrangement = list(op[1])
                 mux.providers = [stores[i] for i in arrangement]
                 out = [0]
+            elif op[0] in ("N", "NL"):
+                kdst = op[1]
+                if op[0] == "N":
+                    src, expect = stores[op[2]], dict(refs[op[2]])       # a map of its own with the same entries
+                else:
+                    xs = [objs[t] for t in op[2]]
+                    src = [xs, tuple(xs), (x for x in xs)][op[3]]
+                    expect = {}
+                    for x in xs:
+                        if x.id in expect and expect[x.id] is not x:
+                            expect = None
+                            break
+                        expect[x.id] = x
+                try:
+                    new = model.DictObjectStore(src)
+                    out = [0]
+                    if expect is None:
+                        bad(k, kind, "duplicate-accepted", "construction from objects with clashing identifiers did not raise KeyError")
+                        expect = {}
+                    stores[kdst], refs[kdst] = new, expect
+                    mux.providers = [stores[i] for i in arrangement]     # providers are re-bound to the new store
+                    for g, (_, sel) in zip(gens, case["gens"]):
+                        if sel == kdst:
+                            g.provider = new
+                except KeyError:
+                    out = [6]
+                    if expect is not None:
+                        bad(k, kind, "spurious-keyerror", "construction raised KeyError without a clash")
             elif op[0] == "G":
                 g = gens[op[1]]
                 ns, sel = case["gens"][op[1]]
@@ -249,13 +279,15 @@ def run_sdk(case):
         # ---- full state check against the reference dicts + observation for the model
         try:
             rows = [out]
-            for s, ref in zip(stores, refs):
+            for si, (s, ref) in enumerate(zip(stores, refs)):
+                # a change of a store that was not the target of the call is classified as such
+                kk = kind if (op[0] != "S" or si == op[1]) else "other-store"
                 listed = list(s)
                 if len(listed) != len(ref) or {id(o) for o in listed} != {id(o) for o in ref.values()} \
                         or len({id(o) for o in listed}) != len(listed):
-                    bad(k, kind, "iteration", "iteration does not yield each stored object exactly once")
+                    bad(k, kk, "iteration", "iteration does not yield each stored object exactly once")
                 if len(s) != len(ref):
-                    bad(k, kind, "len", "len differs from the number of stored identifiers")
+                    bad(k, kk, "len", "len differs from the number of stored identifiers")
                 rows.append([20, len(s)] + [tok.get(id(o), -1) for o in listed])
             for i in ids:
                 row = [22]
@@ -281,6 +313,9 @@ def run_sdk(case):
                 except KeyError:
                     if want is not None:
                         bad(k, "mux", "keyerror", "multiplexer raised KeyError for an identifier a provider knows")
+                if mux.get(i) is not want or mux.get(i, objs[0]) is not (want if want is not None else objs[0]):
+                    bad(k, "mux", "get-default", "multiplexer.get(id, default) returned neither the first provider's "
+                        "object nor (for an identifier nobody knows) the default")
                 rows.append(row)
             for x in objs:
                 rows.append([24] + [int(x in s) for s in stores])
@@ -320,7 +355,7 @@ def gen_theme(rng):
 
 def gen_case(rng, maxlen):
     ns, props, pool = gen_theme(rng)
-    n = rng.randint(1, 3)
+    n = rng.choice([1, 2, 2, 3, 3])
     ngen = rng.randint(0, 2)
     gens = [[ns if rng.random() < .8 else rng.choice(NAMESPACES), rng.randint(0, n)] for _ in range(ngen)]
     ids = [p[0] for p in pool] + [ABSENT]
@@ -339,7 +374,12 @@ def gen_case(rng, maxlen):
         r = rng.random()
         if r < .06:
             ops.append(["M", [rng.randrange(n) for _ in range(rng.randint(0, n + 1))]])
-        elif r < .22 and gens:
+        elif r < .12:
+            if rng.random() < .6:      # a store constructed from another store (or from itself), then both are used
+                ops.append(["N", rng.randrange(n), rng.randrange(n)])
+            else:
+                ops.append(["NL", rng.randrange(n), [rng.randrange(nobj) for _ in range(rng.randint(0, 4))], rng.randrange(3)])
+        elif r < .27 and gens:
             ops.append(["G", rng.randrange(len(gens)), props[0] if rng.random() < .6 else rng.choice(props)])
         else:
             k = rng.randrange(n)
@@ -359,17 +399,22 @@ def gen_case(rng, maxlen):
     return {"pool": pool, "nstores": n, "gens": gens, "ops": ops}
 
 
-def exhaustive_cases(maxlen):
-    """all sequences up to maxlen over one store, a 4-object pool (two objects share "a")"""
+def exhaustive_cases(maxlen, quick):
+    """all sequences up to maxlen over a store and a second one constructed from it, a 4-object pool (two objects share "a")"""
     pool = [["a", 0], ["a", 1], ["b", 2], ["c", 1]]
     alpha = [["S", 0, k, x] for k in ("add", "discard", "remove") for x in range(3)]
     alpha += [["S", 0, "pop"], ["S", 0, "clear"], ["S", 0, "update", [2, 1, 3]], ["S", 0, "ior", [0, 3]],
               ["S", 0, "add", 3]]
+    new = [["N", 1, 0], ["S", 1, "discard", 0], ["S", 1, "add", 1]]      # a second store constructed from the first
     res = []
+    # quick: every sequence up to length 2, and every sequence of length 3 that uses the second store;
+    # thorough: in addition every single-store sequence of length 3 and 4
     for L in range(1, maxlen + 1):
-        for seq in itertools.product(alpha, repeat=L):
-            res.append({"pool": pool, "nstores": 1, "gens": [], "ops": [["M", [0]]] + list(seq)})
-    return res, len(alpha)
+        for seq in itertools.product(alpha + new, repeat=L):
+            two = any(o in new for o in seq)
+            if L <= 2 or (L == 3 and (two or not quick)) or (L == 4 and not two):
+                res.append({"pool": pool, "nstores": 2, "gens": [], "ops": [["M", [1, 0]]] + list(seq)})
+    return res, len(alpha) + len(new)
 
 
 # ------------------------------------------------------------------ Coq side
@@ -401,6 +446,8 @@ Definition oCX k := WS (n k) ContainsOther.
 Definition oLN k := WS (n k) Len.
 Definition oIT k := WS (n k) Iter.
 Definition oM l := WMux (nl l).
+Definition oN k j := WNewFrom (n k) (n j).
+Definition oNL k l := WNewList (n k) (nl l).
 Definition oG g p := WGen (n g) p.
 Definition case (pool : list ident) (k : Z) (gens : list (string * Z)) (ops : list wop) (h : Z) :=
   (pool, n k, map (fun p => (fst p, n (snd p))) gens, ops, h)."""
@@ -409,6 +456,10 @@ Definition case (pool : list ident) (k : Z) (gens : list (string * Z)) (ops : li
 def coq_op(op):
     if op[0] == "M":
         return "oM " + coq_list(str(i) for i in op[1])
+    if op[0] == "N":
+        return f"oN {op[1]} {op[2]}"
+    if op[0] == "NL":
+        return f"oNL {op[1]} " + coq_list(str(i) for i in op[2])
     if op[0] == "G":
         return f"oG {op[1]} " + ("None" if op[2] is None else "(Some " + cstr(op[2]) + ")")
     k, kind = op[1], op[2]
@@ -468,17 +519,19 @@ def quote_cases(rng, nrandom):
 def run(chk):
     rng = chk.rng
     quick = chk.tier == "quick"
-    nseq, maxlen = (4000, 12) if quick else (30000, 16)
+    nseq, maxlen = (3500, 12) if quick else (30000, 16)
     chk.theorems("props.C13", THEOREMS, ["theories/props/C13.vo", "theories/model/StoreObs.vo"])
     cases = []
     corpus = os.path.join(common.VERIF, "corpus", "C13")
     if os.path.isdir(corpus):
         for fn in sorted(os.listdir(corpus)):
             cases.append(json.load(open(os.path.join(corpus, fn))))
-    ex, nalpha = exhaustive_cases(3 if quick else 4)
+    ex, nalpha = exhaustive_cases(3 if quick else 4, quick)
     cases += ex
-    chk.cov["exhaustive_short_sequences"] = (f"all sequences of length <= {3 if quick else 4} over {nalpha} "
-                                             f"mutating calls on a 4-object pool: {len(ex)}")
+    chk.cov["exhaustive_short_sequences"] = (
+        f"{len(ex)} sequences over {nalpha} mutating calls (14 on one store + construction of a second store from it "
+        "and 2 calls on that) on a 4-object pool: all of length <= 2, all of length 3 that use the second store"
+        + ("" if quick else ", all of length 3, all single-store ones of length 4"))
     for _ in range(nseq):
         cases.append(gen_case(rng, maxlen))
     terms = []
@@ -490,7 +543,7 @@ def run(chk):
         chk.count(f"stores={case['nstores']}")
         chk.count(f"len={min(len(ops), 16)}")
         for o, t in zip(ops, trace):
-            chk.count("op=" + (o[2] if o[0] == "S" else {"M": "mux-arrange", "G": "generate_id"}[o[0]]))
+            chk.count("op=" + (o[2] if o[0] == "S" else {"M": "mux-arrange", "G": "generate_id", "N": "construct-from-store", "NL": "construct-from-iterable"}[o[0]]))
             chk.count("out=" + {0: "None", 1: "object", 2: "None", 3: "bool", 4: "int", 5: "list", 6: "KeyError",
                                 8: "iri"}.get(t[0][0], "other"))
             if o[0] == "G" and t[0][0] == 8:
